@@ -324,7 +324,9 @@ class C18(F.Check):
         "'never the label of a different unit': all pairs of grid expressions whose (dimension, magnitude) differ must have different labels, compared on the model strings "
         "and on the characters read back; pairs whose grammar strings coincide because both use a generic marker ([UNLABELED UNIT] / (UNLABELED SCALE FACTOR)) are exempt "
         "(the property's parenthesis) and counted",
-        "operator<< (value, one space, label; unary + for 8-bit reps) goes through iostreams (virtual dispatch, locale): OUTSIDE, not encoded, not claimed",
+        "operator<<: the stream is a recording stub (every call on the std::ostream is recorded with its arguments): decided is that a NUMERIC inserter is "
+        "called with exactly the stored value (never a character inserter, also for char / signed char / unsigned char reps), then ' ', then the label; "
+        "what the numeric inserter prints (locale, formatting flags) is libstdc++'s and outside",
         "in-bounds writes during the constexpr construction of labels are the compiler's own check (constant evaluation rejects out-of-bounds writes)",
     ]
 
@@ -473,7 +475,7 @@ class C18(F.Check):
         return out
 
     def kernels(self):
-        self.prelude = PRELUDE
+        self.prelude = '#include "au/io.hh"\n#include <sstream>\n#include <string>\n' + PRELUDE
         D = "au::detail::"
         ks = [F.Kernel("c18_ssu", "uint64_t", [("uint64_t", "x")], "return %sstring_size_unsigned(x);" % D, family="string_size_unsigned"),
               F.Kernel("c18_ss", "uint64_t", [("int64_t", "x")], "return %sstring_size(x);" % D, family="string_size")]
@@ -531,6 +533,32 @@ class C18(F.Check):
             kl = F.Kernel("c18_itoa_len_%s" % nm, "uint64_t", [], "return %sIToA<%s>::length;" % (D, lit), key=key, family="IToA::length")
             ks += [kc, kz, kl]
             self.itoa.append(dict(tag="I" + nm, kc=kc, kz=kz, kl=kl, alts=[str(n)], key=key, int64min=(n == I64MIN)))
+        # ---- streaming: the event trace of operator<< (the stream itself is a stub: every call on it is recorded with its arguments)
+        self.stream = []
+        sreps = F.ALL_REPS + ["char", "signed char", "unsigned char", "int", "long"]
+        sunits = [("Feet", "ft"), ("Kilo<Feet>", "kft"), ("decltype(Feet{} / Kelvins{})", "ft / K"), ("Meters", "m")]
+        if self.tier == "quick":
+            sunits = sunits[:3]
+        for ri, r in enumerate(sreps):
+            for ui, (u, lab) in enumerate(sunits):
+                nm = "c18_stream_%d_%d" % (ri, ui)
+                k = F.Kernel(nm, "void", [("std::ostream&", "os"), (r, "x")], "os << make_quantity<%s>(x);" % u,
+                             key={"rep": r, "unit": u, "label": lab, "kind": "quantity"}, family="stream", native=False)
+                ks.append(k)
+                # native-only twin used to replay a structural counterexample: really stream into a string and compare with "<number> <label>"
+                kn = F.Kernel(nm + "_native", "bool", [(r, "x")],
+                              'std::ostringstream a, b; a << make_quantity<%s>(x); b << +x << " " << "%s"; return a.str() == b.str();' % (u, lab),
+                              key=k.key, family="stream_native_replay")
+                ks.append(kn)
+                self.stream.append((k, r, lab, False, kn.name))
+            k = F.Kernel("c18_streampt_%d" % ri, "void", [("std::ostream&", "os"), (r, "x")], "os << make_quantity_point<Kelvins>(x);",
+                         key={"rep": r, "unit": "Kelvins", "label": "K", "kind": "point"}, family="stream_point", native=False)
+            ks.append(k)
+            kn = F.Kernel("c18_streampt_%d_native" % ri, "bool", [(r, "x")],
+                          'std::ostringstream a, b; a << make_quantity_point<Kelvins>(x); b << "@(" << +x << " K)"; return a.str() == b.str();',
+                          key=k.key, family="stream_native_replay")
+            ks.append(kn)
+            self.stream.append((k, r, "K", True, kn.name))
         return ks
 
     # ---- helpers
@@ -591,8 +619,93 @@ class C18(F.Check):
         obs.append(F.Ob("%s_sizeof:%s" % (family, tag), [], fz, kind="closed", key=key, kernels=[kz.name], note="sizeof(label) == len + 1"))
         return chosen
 
+    def stream_obligations(self, K, obs):
+        """operator<<(ostream&, Quantity): numeric inserter with exactly the stored value (never a character inserter), one space, the label"""
+        from .. import encode
+        NUM = {"_ZNSolsEi": ("s", 32), "_ZNSolsEj": ("u", 32), "_ZNSolsEl": ("s", 64), "_ZNSolsEm": ("u", 64), "_ZNSolsEx": ("s", 64),
+               "_ZNSolsEy": ("u", 64), "_ZNSolsEs": ("s", 16), "_ZNSolsEt": ("u", 16), "_ZNSolsEd": ("f", "double"), "_ZNSolsEf": ("f", "float"),
+               "_ZNSolsEe": ("f", "long double"), "_ZNSo9_M_insertIdEERSoT_": ("f", "double"), "_ZNSo9_M_insertIeEERSoT_": ("f", "long double"),
+               "_ZNSo9_M_insertIlEERSoT_": ("s", 64), "_ZNSo9_M_insertImEERSoT_": ("u", 64), "_ZNSo9_M_insertIxEERSoT_": ("s", 64),
+               "_ZNSo9_M_insertIyEERSoT_": ("u", 64)}
+        INSERT = "_ZSt16__ostream_insertIcSt11char_traitsIcEERSt13basic_ostreamIT_T0_ES6_PKS3_l"
+        ctmap = dict(F.CTYPES)
+        ctmap.update({"signed char": ("s", 8, 1), "unsigned char": ("u", 8, 1)})
+        for k, r, lab, is_pt, native_name in self.stream:
+            h = K[k.name]
+            if h.kernel.dropped:
+                ob = F.Ob("stream_compiles:" + k.name, [], None, kind="closed", key=dict(k.key, compile_error=h.kernel.dropped[:200]), kernels=[k.name],
+                          note="streaming a quantity of this rep must compile")
+                ob.status = "lowering-failed"
+                obs.append(ob)
+                continue
+            kind, w, _ = ctmap[r]
+            xs = [("x", T.BV(w))]
+
+            def fn(K, x, name=k.name, r=r, kind=kind, w=w, lab=lab, is_pt=is_pt, native_name=native_name):
+                if isinstance(K[native_name], F.NativeHandle):
+                    # replay: really stream into a std::ostringstream and compare with "<number> <label>"
+                    e_ = K[native_name](x)
+                    return T.TRUE, T.and_(T.not_(e_.ub), e_.ret)
+                hh = K[name]
+                events = []
+
+                mod = hh.chunk.module
+
+                def hook(enc, callee, args, guard):
+                    if callee == "strlen" and args and isinstance(args[0], encode.Ptr) and T.is_const(args[0].idx):
+                        g_ = mod.globals.get(args[0].obj)
+                        d_ = encode.parse_global_init(g_) if g_ else None
+                        if d_ is None or 0 not in d_[1][args[0].idx.attr:]:
+                            return None
+                        return encode.Val(T.const_bv(d_[1][args[0].idx.attr:].index(0), 64))
+                    events.append((callee, args, guard))
+                    return args[0] if args and isinstance(args[0], encode.Ptr) else None
+                try:
+                    e = encode.encode_kernel(mod, name, [encode.Ptr("os", T.const_bv(0, 64), None), x], extern_hook=hook)
+                except encode.IRUnsupported:
+                    # the kernel touches the stream other than through inserter calls (e.g. the inlined character inserter reads the
+                    # stream's width): not the required trace; the native twin decides whether the printed text is wrong
+                    return T.TRUE, T.FALSE
+
+                def text(ev):
+                    callee, args, guard = ev
+                    if callee != INSERT or not isinstance(args[1], encode.Ptr) or not T.is_const(args[2].t) or not T.is_const(args[1].idx):
+                        return None
+                    g = mod.globals.get(args[1].obj)
+                    data = encode.parse_global_init(g) if g else None
+                    if data is None:
+                        return None
+                    vals = data[1][args[1].idx.attr: args[1].idx.attr + args[2].t.attr]
+                    return "".join(chr(c) for c in vals)
+                seq = list(events)
+                ok = all(g is T.TRUE for _, _, g in seq)
+                if is_pt:
+                    ok = ok and len(seq) == 5 and text(seq[0]) == "@(" and text(seq[4]) == ")"
+                    seq = seq[1:4] if len(seq) == 5 else []
+                ok = ok and len(seq) == 3 and seq[0][0] in NUM and text(seq[1]) == " " and text(seq[2]) == lab
+                val_ok = T.FALSE
+                if ok:
+                    nk, nw = NUM[seq[0][0]]
+                    arg = seq[0][1][1].t
+                    if nk == "f":
+                        exp = T.fp_cvt(F.FMT_OF[r], F.FMT_OF[nw], x) if kind == "f" else None
+                    elif kind == "f":
+                        exp = None
+                    else:
+                        xx = x if x.sort != T.BOOL else T.bool_to_bv(x, 8)
+                        exp = (T.sext if kind == "s" else T.zext)(xx, nw) if T.width(xx) <= nw else None
+                        # the inserter's signedness must be able to show the value: unsigned reps of full width need an unsigned inserter
+                        if exp is not None and kind == "u" and nk == "s" and T.width(xx) == nw:
+                            exp = None
+                    val_ok = T.eq(arg, exp) if exp is not None and exp.sort == arg.sort else T.FALSE
+                return T.TRUE, T.and_(T.const_bool(bool(ok)), val_ok, T.not_(e.ub))
+            obs.append(F.Ob("stream_trace:" + k.name, xs, fn, key=k.key, kernels=[k.name, native_name], routes=F.CMP_ROUTES,
+                            note="operator<< calls a NUMERIC stream inserter with exactly the stored value (sign/zero/fp-extended), then inserts ' ' and the "
+                                 "unit label%s; the stream is a recording stub, what the inserter prints is libstdc++'s" % (" inside '@(' ... ')'" if is_pt else "")))
+
     def obligations(self, K):
         obs = []
+        self.stream_obligations(K, obs)
         B = T.BV(64)
 
         def fn_u(K, x):
